@@ -81,7 +81,7 @@ def case_record(c):
     hd, exp_user = user_cards(c['n_user'], c.get('kind_off', 0))
     dio = c['directio']
     if dio != 'absent':
-        hd['DIRECTIO'] = {'0': 0, '1': 1, 's1': '1', 's0': '0'}[dio]
+        hd['DIRECTIO'] = {'0': 0, '1': 1, 's1': '1', 's0': '0', 'sx': 'abc'}[dio]      # 'abc': not a number -- the library falls back to 0
     start_pkt = 0
     if c.get('user_pktidx') is not None:
         hd['PKTIDX'] = c['user_pktidx']
@@ -473,7 +473,8 @@ def case_from_data(c):
         os.remove(fn)
     n = 0
     try:
-        be.record(output_file_stem=stem_in, num_blocks=c['nb'], length_mode='num_blocks', header_dict={'DIRECTIO': c['dio']},
+        be.record(output_file_stem=stem_in, num_blocks=c['nb'], length_mode='num_blocks',
+                  header_dict={'DIRECTIO': c['dio'], 'TELESCOP': 'GBT', 'OBSERVER': 'ME', 'SRC_NAME': 'VOYAGER'},
                   load_template=False, verbose=False)
         spb = cfg['r'] * cfg['M']
         tbin = cfg['P'] / cfg['sample_rate']
@@ -485,7 +486,10 @@ def case_from_data(c):
             b2 = sv.RawVoltageBackend.from_data(stem_in, ant, digitizer=sv.RealQuantizer(), filterbank=f2, start_chan=0, num_subblocks=2)
             for fn in guppi.list_files(stem_out):
                 os.remove(fn)
-            b2.record(output_file_stem=stem_out, num_blocks=req, length_mode='num_blocks', header_dict={}, load_template=False, verbose=False)
+            # user cards, among them the three identity cards the input recording also carries (the first recording wrote
+            # TELESCOP / OBSERVER / SRC_NAME): what the caller supplies is what the output says
+            ucards = {'TELESCOP': 'MINE', 'OBSERVER': 'YOU', 'SRC_NAME': 'MYSRC', 'FOO': 8} if req % 2 else {}
+            b2.record(output_file_stem=stem_out, num_blocks=req, length_mode='num_blocks', header_dict=dict(ucards), load_template=False, verbose=False)
             n += 1
             want = min(req, c['nb'])
             blocks = [b for fn in guppi.list_files(stem_out) for b in guppi.parse_file(fn)]
@@ -494,6 +498,10 @@ def case_from_data(c):
                 continue
             for bi, b in enumerate(blocks):
                 h = dict(b['header'])
+                lost = {k: h.get(k) for k, v in ucards.items() if str(h.get(k, '')).strip().strip("'").strip() != str(v)}
+                if lost:
+                    V('user_card_not_preserved', 'recording onto input RAW with header_dict=%r: block %d says %r' % (ucards, bi, lost))
+                    break
                 for k in ('PKTSTOP', 'PKTSTART', 'PKTIDX', 'BLOCSIZE'):      # inherited input cards may be written as quoted text
                     try:
                         h[k] = int(str(h.get(k, -1)).strip())
@@ -532,6 +540,9 @@ def run(ctx):
         if n_user in (0, 7):
             cases.append(dict(box='A', n_user=n_user, kind_off=0, directio='1', template=False, source='ant', num_blocks=3, bpf=2,
                               bits=8, perms=False, glob_stem=True))
+        # a DIRECTIO card that is not a number (the library announces that it falls back to 0)
+        cases.append(dict(box='A', n_user=n_user, kind_off=0, directio='sx', template=False, source='ant', num_blocks=3, bpf=2,
+                          bits=8, perms=False))
         if not T:
             # DIRECTIO zero given as a string card ('0'), as it comes back from a header that was read from a file
             cases.append(dict(box='A', n_user=n_user, kind_off=0, directio='s0', template=False, source='ant', num_blocks=2, bpf=2,
